@@ -148,6 +148,12 @@ type Uint64MapBuilder struct {
 }
 
 func NewUint64MapBuilder(bucketBits int, tagBits int) *Uint64MapBuilder {
+	// A bucket header stores (id >> bucketBits) << tagBits in 64 bits, so the
+	// ID bits implied by the bucket must make room for the tag, otherwise
+	// the top bits of the ID are lost.
+	if bucketBits < tagBits {
+		bucketBits = tagBits
+	}
 	return &Uint64MapBuilder{
 		Layout: Uint64MapLayout{
 			BucketBits: bucketBits,
